@@ -36,7 +36,7 @@ fn subcommands(ctx: &Ctx) -> Vec<String> {
 
 pub fn run(ctx: &Ctx) -> Report {
   let mut report = Report::new(
-    "complete enumeration: 5 shells x {--shell, -s, positional, both, none, unknown shell} x {--dir D, -d D, none} x directory state {empty, longer stale scripts under the documented names, shorter ones} on the real binary with a sandbox snapshot; stdout vs file bytes, file names, nothing else written, \
+    "complete enumeration: 5 shells x {--shell, -s, positional, both, none, unknown shell} x {--dir D, -d D, none} x directory state {empty, longer stale scripts under the documented names, shorter ones, scripts of exactly the right length with other text} x {no global option, --terminal, --quiet} on the real binary with a sandbox snapshot; stdout vs file bytes, file names, nothing else written, \
      non-empty script naming every subcommand scraped from `imdl --help` / `imdl torrent --help`; all cases non-trivial; distinct by argument vector",
   );
   report.exhaustive = ctx.replay.is_none();
@@ -77,20 +77,36 @@ pub fn run(ctx: &Ctx) -> Report {
   shell_specs.push((vec!["--shell".into(), "tcsh".into()], Some("tcsh".into()), None));
   shell_specs.push((vec!["nushell".into()], None, Some("nushell".into())));
   for (sargs, flag, pos) in &shell_specs {
-    for (dir_flag, pre) in [(None, "empty"), (Some("--dir"), "empty"), (Some("-d"), "empty"), (Some("--dir"), "stale-longer"), (Some("--dir"), "stale-shorter")] {
+    for (dir_flag, pre, global) in [(None, "empty", None), (Some("--dir"), "empty", None), (Some("-d"), "empty", None), (Some("--dir"), "stale-longer", None), (Some("--dir"), "stale-shorter", None),
+      (Some("--dir"), "stale-same-length", None), (None, "empty", Some("--terminal")), (Some("--dir"), "empty", Some("--terminal")), (None, "empty", Some("--quiet"))] {
       let sb = Sandbox::new(&ctx.work, "c19");
       sb.mkdir("out");
       sb.write("bystander", b"keep");
       // an earlier installation left scripts under the documented names
-      for (_, file) in SHELLS {
+      for (sh, file) in SHELLS {
         match pre {
+          "stale-same-length" => {
+            // as long as the script that belongs there, but not the same text (an older release's wording)
+            let mut old = printed.get(sh).cloned().unwrap_or_default();
+            let n = old.len();
+            for i in [n / 3, n / 2, n.saturating_sub(2)] {
+              if let Some(b) = old.get_mut(i) {
+                *b = if *b == b'#' { b'%' } else { b'#' };
+              }
+            }
+            sb.write(&format!("out/{file}"), &old);
+          }
           "stale-longer" => sb.write(&format!("out/{file}"), "# stale completion script\n".repeat(8000).as_bytes()),
           "stale-shorter" => sb.write(&format!("out/{file}"), b"# old"),
           _ => {}
         }
       }
       report.hit(&format!("dir-state:{pre}"));
-      let mut args: Vec<String> = vec!["completions".into()];
+      let mut args: Vec<String> = global.iter().map(|g| g.to_string()).collect();
+      if global.is_some() {
+        report.hit(&format!("global-option:{}", global.unwrap()));
+      }
+      args.push("completions".into());
       args.extend(sargs.iter().cloned());
       if let Some(d) = dir_flag {
         args.push(d.into());
